@@ -41,7 +41,10 @@ STRS = [b"..", b"../x", b"/abs/path", b"a//b/./c/", b"", b".", b"x" * 100, b"\xf
 TYPES = b"0123456LKxgSDMNVX\0 7"
 PAXKEYS = [b"size", b"path", b"linkpath", b"uid", b"gid", b"mtime", b"GNU.sparse.size", b"GNU.sparse.realsize", b"GNU.sparse.name",
            b"GNU.sparse.major", b"GNU.sparse.minor", b"GNU.sparse.map", b"GNU.sparse.offset", b"GNU.sparse.numbytes",
-           b"GNU.sparse.numblocks", b"SCHILY.xattr.user.x", b"LIBARCHIVE.xattr.user.x", b"SCHILY.xattr", b"comment", b"atime"]
+           b"GNU.sparse.numblocks", b"SCHILY.xattr.user.x", b"LIBARCHIVE.xattr.user.x", b"SCHILY.xattr", b"comment", b"atime",
+           # escapes inside xattr keys (GNU tar: %25 = '%', %3D = '='; libarchive: any %XX)
+           b"SCHILY.xattr.user.a%25b", b"SCHILY.xattr.user.%3Dx%3d", b"SCHILY.xattr.%2", b"SCHILY.xattr.%25%3D%", b"SCHILY.xattr.user.%253D",
+           b"LIBARCHIVE.xattr.user.%3Dy%41%2", b"SCHILY.xattr.", b"LIBARCHIVE.xattr."]
 
 
 def chksum(block):
